@@ -23,6 +23,7 @@ import (
 
 	"istio.io/istio/pilot/pkg/model"
 	v3 "istio.io/istio/pilot/pkg/xds/v3"
+	dnsProto "istio.io/istio/pkg/dns/proto"
 )
 
 // ---- in-memory streams
@@ -131,13 +132,18 @@ func (p proxySpec) node() *core.Node {
 		"ISTIO_VERSION": "1.29.0",
 		"CLUSTER_ID":    "Kubernetes",
 		"SERVICE_ACCOUNT": "sa-" + p.NS,
+		"DNS_CAPTURE":   fmt.Sprint(p.Type == "sidecar"),
 	})
 	return &core.Node{Id: p.ID, Metadata: meta, Locality: &core.Locality{Region: "region1", Zone: "zone1"}}
 }
 
 // ---- the client
 
-var clientTypes = []string{v3.ClusterType, v3.EndpointType, v3.ListenerType, v3.RouteType}
+// NDS (the agent's DNS name table, one unnamed resource) is subscribed by the sidecars, whose node
+// metadata enables DNS capture; the gateway does not ask for it.
+var clientTypes = []string{v3.ClusterType, v3.EndpointType, v3.ListenerType, v3.RouteType, v3.NameTableType}
+
+const nameTableName = "nametable"
 
 type typeState struct {
 	held      map[string][]byte // resource name -> deterministic bytes
@@ -215,10 +221,13 @@ func (c *client) connect(srv *simServer, retained bool, cutAfter int) {
 	}
 	first := true
 	order := []string{v3.ClusterType, v3.ListenerType}
+	if c.spec.Type == "sidecar" {
+		order = append(order, v3.NameTableType)
+	}
 	if retained {
-		order = []string{v3.ClusterType, v3.EndpointType, v3.ListenerType, v3.RouteType}
+		order = []string{v3.ClusterType, v3.EndpointType, v3.ListenerType, v3.RouteType, v3.NameTableType}
 		if c.edsFirst && !c.delta {
-			order = []string{v3.EndpointType, v3.ClusterType, v3.ListenerType, v3.RouteType}
+			order = []string{v3.EndpointType, v3.ClusterType, v3.ListenerType, v3.RouteType, v3.NameTableType}
 			c.rewarmOnCDS = true
 		}
 	}
@@ -262,13 +271,20 @@ func (c *client) disconnect() {
 	}
 }
 
-func isWildcard(t string) bool { return t == v3.ClusterType || t == v3.ListenerType }
+func isWildcard(t string) bool {
+	return t == v3.ClusterType || t == v3.ListenerType || t == v3.NameTableType
+}
 
 // request sends the client's current subscription for a type. On a fresh stream (reconnect) the
 // client presents what it retained: version + nonce (sotw) or initial_resource_versions (delta).
 func (c *client) request(t string, withNode, reconnect bool) {
 	ts := c.ts[t]
 	ts.requested = true
+	if t == v3.NameTableType {
+		// the agent (not Envoy) owns this subscription; on a new stream it sends its initial request
+		// again and presents nothing retained
+		reconnect = false
+	}
 	var node *core.Node
 	if withNode {
 		node = c.spec.node()
@@ -284,7 +300,7 @@ func (c *client) request(t string, withNode, reconnect bool) {
 			for n := range ts.held {
 				req.InitialResourceVersions[n] = "retained"
 			}
-			if c.explicitWildcard && isWildcard(t) && len(ts.held) > 0 {
+			if c.explicitWildcard && isWildcard(t) && t != v3.NameTableType && len(ts.held) > 0 {
 				req.ResourceNamesSubscribe = []string{"*", sortedKeys(ts.held)[0]}
 			}
 		}
@@ -370,7 +386,7 @@ func (c *client) handleSotw(r *discovery.DiscoveryResponse) {
 	}
 	for _, a := range r.Resources {
 		name := resourceName(t, a.Value)
-		ts.held[name] = a.Value
+		ts.held[name] = canonical(t, a.Value)
 		delete(ts.awaiting, name)
 	}
 	ts.version, ts.nonce = r.VersionInfo, r.Nonce
@@ -398,10 +414,17 @@ func (c *client) handleDelta(r *discovery.DeltaDiscoveryResponse) {
 	}
 	ts.responses++
 	for _, res := range r.Resources {
-		ts.held[res.Name] = res.Resource.GetValue()
-		delete(ts.awaiting, res.Name)
+		name := res.Name
+		if t == v3.NameTableType {
+			name = nameTableName
+		}
+		ts.held[name] = canonical(t, res.Resource.GetValue())
+		delete(ts.awaiting, name)
 	}
 	for _, n := range r.RemovedResources {
+		if t == v3.NameTableType {
+			n = nameTableName
+		}
 		delete(ts.held, n)
 		delete(ts.awaiting, n)
 		c.removed[t] = append(c.removed[t], n)
@@ -494,8 +517,23 @@ func resourceName(t string, b []byte) string {
 		return claName(b)
 	case v3.RouteType:
 		return rcName(b)
+	case v3.NameTableType:
+		return nameTableName
 	}
 	return fmt.Sprintf("?%x", b[:min(8, len(b))])
+}
+
+// canonical re-marshals resources whose wire form depends on map iteration order (the name table is
+// one proto map) so that byte comparison means equality.
+func canonical(t string, b []byte) []byte {
+	if t != v3.NameTableType {
+		return b
+	}
+	var m dnsProto.NameTable
+	if proto.Unmarshal(b, &m) != nil {
+		return b
+	}
+	return marshal(&m)
 }
 
 func edsNames(clusters map[string][]byte) map[string]bool {
